@@ -129,7 +129,7 @@ def plan(tier):
     specs = [{'kind': 'scripts'}]
     specs += [{'kind': 'enum', 'maxlen': maxlen, 'part': i, 'parts': n_enum} for i in range(n_enum)]
     n_hyp = 7 if tier == 'quick' else 16
-    per = 350 if tier == 'quick' else 12000
+    per = 1500 if tier == 'quick' else 12000
     specs += [{'kind': 'hyp', 'n': per, 'k': i} for i in range(n_hyp)]
     return specs
 
